@@ -1104,6 +1104,8 @@ def plan(tier, seed):
             else:
                 srcs += [(('bbip', L, Rr, maxe), routes) for (L, Rr) in
                          ((1, 9), (9, 1), (5, 5), (2, 10), (10, 2), (11, 12), (12, 12))]
+                # wide right sides (rows long enough for a writer to wrap them)
+                srcs += [(('bbip', L, Rr, 1), routes) for (L, Rr) in ((2, 50), (2, 51), (1, 101), (2, 52), (51, 2))]
             srcs.append((('extra', gtype, seed), 'all' if fmt != 'dot' else 'one'))
             srcs.append((('large', gtype, 300), 'one' if fmt == 'dot' else 'most'))
             for spec, rts in srcs:
